@@ -613,15 +613,17 @@ func (p *Parser) parseCommodityDirective(startPos Position) ast.Directive {
 }
 
 func (p *Parser) parseIncludeDirective(startPos Position) ast.Directive {
-	var path strings.Builder
 	pathStart := p.current.Pos
+	pathEnd := pathStart.Offset
 
+	// The path is the text up to a comment or the line end as it is written: the lexer
+	// has cut it into tokens and dropped the blanks (and delimiters) between them.
 	for p.current.Type != TokenNewline && p.current.Type != TokenEOF && p.current.Type != TokenComment {
-		path.WriteString(p.current.Value)
+		pathEnd = p.current.End.Offset
 		p.advance()
 	}
 
-	pathStr := strings.TrimSpace(path.String())
+	pathStr := strings.TrimSpace(p.lexer.input[pathStart.Offset:pathEnd])
 	if pathStr == "" {
 		p.error("expected file path")
 		p.skipToNextLine()
